@@ -120,16 +120,57 @@ theorem parseFloat_syntax {b : Nat} {s : Str} {x : Num} (h : parseFloat b s = .o
     | negInf => simp [hf] at h; rw [h]
     | nan => simp [hf] at h; rw [h]
 
-theorem floatSyntax_fin {s : Str} {d : Dec} (h : floatSyntax s = .ok (.fin d)) : parseDec s = .ok d := by
-  unfold floatSyntax at h
+theorem isDigit_underscore : isDigit '_' = false := by decide
+
+theorem digits_noUnderscore : ∀ {s : Str}, s.all isDigit = true → s.contains '_' = false
+  | [], _ => rfl
+  | c :: cs, h => by
+    simp only [List.all_cons, Bool.and_eq_true] at h
+    have hc : ('_' == c) = false := by
+      cases hb : ('_' == c) with
+      | false => rfl
+      | true =>
+        have e : '_' = c := by simpa using hb
+        rw [← e, isDigit_underscore] at h; simp at h
+    have := digits_noUnderscore h.2
+    simp only [List.contains_cons, this, Bool.or_false, hc]
+
+theorem floatSyntax_of_parseDec {s : Str} {d : Dec} (hu : s.contains '_' = false) (h : parseDec s = .ok d) :
+    floatSyntax s = .ok (.fin d) := by
+  unfold floatSyntax cleanUnderscores
+  rw [hu]
+  simp only [Bool.not_false, if_true, h]
+
+theorem parseInt_floatSyntax {b : Nat} {s : Str} {i : Int} (h : parseInt b s = .ok i) :
+    floatSyntax s = .ok (.fin ⟨i, 0⟩) := by
+  refine floatSyntax_of_parseDec ?_ (parseInt_parseDec h)
+  unfold parseInt at h
   simp only at h
-  split at h; · simp at h
-  split at h; · simp at h
-  split at h; · simp at h
-  split at h; · simp at h
-  cases hp : parseDec s with
-  | error e => simp [hp, Except.map] at h
-  | ok d' => simp [hp, Except.map] at h; rw [h]
+  generalize hb : (if s.head? = some '-' ∨ s.head? = some '+' then s.tail else s) = body at h
+  by_cases hc : body = [] ∨ (!(body.all isDigit)) = true
+  · rw [if_pos hc] at h; simp at h
+  · simp only [not_or, Bool.not_eq_true', Bool.not_eq_false] at hc
+    have hall : body.all isDigit = true := by simpa using hc.2
+    have hbu := digits_noUnderscore hall
+    cases s with
+    | nil => simp at hb; exact absurd hb hc.1
+    | cons c t =>
+      simp only [List.head?_cons, Option.some.injEq, List.tail_cons] at hb
+      by_cases hs : c = '-' ∨ c = '+'
+      · rw [if_pos hs] at hb; subst hb
+        have : ('_' == c) = false := by rcases hs with e | e <;> (subst e; decide)
+        simp only [List.contains_cons, hbu, Bool.or_false, this]
+      · rw [if_neg hs] at hb; subst hb; exact hbu
+
+theorem parseUint_floatSyntax {b : Nat} {s : Str} {i : Int} (h : parseUint b s = .ok i) :
+    floatSyntax s = .ok (.fin ⟨i, 0⟩) := by
+  refine floatSyntax_of_parseDec ?_ (parseUint_parseDec h)
+  unfold parseUint at h
+  simp only at h
+  by_cases hc : s = [] ∨ (!(s.all isDigit)) = true
+  · rw [if_pos hc] at h; simp at h
+  · simp only [not_or, Bool.not_eq_true', Bool.not_eq_false] at hc
+    exact digits_noUnderscore (by simpa using hc.2)
 
 /-! ### primitive paths -/
 
@@ -184,7 +225,7 @@ theorem rangeOK_of_json {c : Cfg} {o : Option Opts} {lit : Str} (k : Option Kind
         by_cases hrej : rangeRejects c r x = true
         · simp [hrej] at h
         · obtain ⟨d, rfl, hd⟩ := rangeRejects_false hc (by simpa using hrej)
-          have := floatSyntax_fin (parseFloat_syntax hp)
+          have := parseFloat_syntax hp
           cases k with
           | none => simp [rangeOK, hr]
           | some k => simp [rangeOK, hr, numOf, this, hd]
@@ -214,15 +255,15 @@ theorem rangeOK_of_value {c : Cfg} {o : Option Opts} {k : Kind} {s : Str} {v : V
           | int b =>
             obtain ⟨i, hi, rfl⟩ := exceptMap_ok hv
             simp [valToNum, Dec.ofInt] at hn; subst hn
-            simp [rangeOK, hr, Kind.isNumeric, numOf, parseInt_parseDec hi, hd]
+            simp [rangeOK, hr, Kind.isNumeric, numOf, parseInt_floatSyntax hi, hd]
           | uint b =>
             obtain ⟨i, hi, rfl⟩ := exceptMap_ok hv
             simp [valToNum, Dec.ofInt] at hn; subst hn
-            simp [rangeOK, hr, Kind.isNumeric, numOf, parseUint_parseDec hi, hd]
+            simp [rangeOK, hr, Kind.isNumeric, numOf, parseUint_floatSyntax hi, hd]
           | float b =>
             obtain ⟨y, hy, rfl⟩ := exceptMap_ok hv
             simp [valToNum] at hn; subst hn
-            simp [rangeOK, hr, Kind.isNumeric, numOf, floatSyntax_fin (parseFloat_syntax hy), hd]
+            simp [rangeOK, hr, Kind.isNumeric, numOf, parseFloat_syntax hy, hd]
 
 theorem optionsOK_of {o : Option Opts} {t : Str} {j : J} (k : Option Kind)
     (h : validateInOptions o t = .ok ()) (ht : textOf j = some t) : optionsOK (effOpts o) k j = true := by
@@ -516,17 +557,91 @@ theorem isZeroFields_zero : ∀ fs : Fields, isZeroFields fs (zeroFields fs) = t
   | .cons name tag t rest => by simp [zeroFields, isZeroFields, isZero_zero t, isZeroFields_zero rest]
 end
 
+theorem strListIs_strList : ∀ l : List Str, strListIs l (strList l) = true
+  | [] => rfl
+  | s :: rest => by simp [strList, strListIs, scalarEq, strListIs_strList rest]
+
 theorem defaultVal_sound : ∀ (t : Ty) (d : Str) (v : Val), defaultVal t d = .ok v → satDefault t d v = true
   | .ptr t, d, v, h => by
     unfold defaultVal at h
-    obtain ⟨v', hv', rfl⟩ := exceptMap_ok h
-    simp [satDefault, defaultVal_sound t d v' hv']
+    split at h
+    · simp at h
+    · obtain ⟨v', hv', rfl⟩ := exceptMap_ok h
+      simp [satDefault, defaultVal_sound t d v' hv']
   | .prim k, d, v, h => by
     unfold defaultVal at h
     simp [satDefault, h, convertFromString_scalar h]
   | .struct _, d, v, h => by simp [defaultVal] at h
-  | .slice _, d, v, h => by simp [defaultVal] at h
+  | .slice t, d, v, h => by
+    cases t with
+    | prim k =>
+      cases k with
+      | string =>
+        simp [defaultVal] at h; subst h
+        by_cases he : parseGroupedSegments d = []
+        · simp [satDefault, he]
+        · simp [satDefault, he, strListIs_strList]
+      | bool => simp [defaultVal] at h
+      | int b => simp [defaultVal] at h
+      | uint b => simp [defaultVal] at h
+      | float b => simp [defaultVal] at h
+    | ptr t => simp [defaultVal] at h
+    | slice t => simp [defaultVal] at h
+    | map t => simp [defaultVal] at h
+    | struct fs => simp [defaultVal] at h
   | .map _, d, v, h => by simp [defaultVal] at h
+
+theorem mapElems_sound {f : J → Except Err Val} {p : J → Val → Bool}
+    (hf : ∀ j v, f j = .ok v → p j v = true) :
+    ∀ (l : List J) (vs : VList), mapElems f l = .ok vs → satElems p l vs = true
+  | [], vs, h => by simp [mapElems] at h; subst h; rfl
+  | j :: rest, vs, h => by
+    unfold mapElems at h
+    cases h1 : f j with
+    | error e => simp [h1] at h
+    | ok v =>
+      cases h2 : mapElems f rest with
+      | error e => simp [h1, h2] at h
+      | ok vs' =>
+        simp [h1, h2] at h; subst h
+        simp [satElems, hf j v h1, mapElems_sound hf rest vs' h2]
+
+theorem mapEntries_sound {f : J → Except Err Val} {p : J → Val → Bool}
+    (hf : ∀ j v, f j = .ok v → p j v = true) :
+    ∀ (m : Obj) (vs : VFields), mapEntries f m = .ok vs → satEntries p m vs = true
+  | [], vs, h => by simp [mapEntries] at h; subst h; rfl
+  | (k, j) :: rest, vs, h => by
+    unfold mapEntries at h
+    cases h1 : f j with
+    | error e => simp [h1] at h
+    | ok v =>
+      cases h2 : mapEntries f rest with
+      | error e => simp [h1, h2] at h
+      | ok vs' =>
+        simp [h1, h2] at h; subst h
+        simp [satEntries, hf j v h1, mapEntries_sound hf rest vs' h2]
+
+theorem sliceResult_sound {p : J → Val → Bool} {l : List J} {vs : VList} (h : satElems p l vs = true) :
+    sliceSat p l (sliceResult l vs) = true := by
+  unfold sliceSat sliceResult
+  by_cases h1 : l.isEmpty = true
+  · simp [h1]
+  · by_cases h2 : allNull l = true
+    · simp [h1, h2]
+    · simp [h1, h2, h]
+
+/-- the slice case shared by `withValue`, `elemValue` and `mapElemValue` -/
+theorem slice_sound {c : Cfg} {t : Ty} {l : List J} {v : Val} {ev : J → Except Err Val}
+    (hev : ∀ j v, ev j = .ok v → satTy c t j v = true)
+    (h : (mapElems (fun j => if j.isNull then .ok (zero t) else ev j) l).map (sliceResult l) = .ok v) :
+    sliceSat (fun j v => if j.isNull then isZero t v else satTy c t j v) l v = true := by
+  obtain ⟨vs, hvs, rfl⟩ := exceptMap_ok h
+  apply sliceResult_sound
+  refine mapElems_sound ?_ l vs hvs
+  intro j v hj
+  by_cases hn : j.isNull = true
+  · simp [hn] at hj ⊢; subst hj; exact isZero_zero t
+  · simp [hn] at hj ⊢; exact hev j v hj
 
 theorem jsonNumberPath_none {c : Cfg} {o : Option Opts} {lit : Str} {v : Val} :
     jsonNumberPath c o none lit ≠ .ok v := by
@@ -550,9 +665,11 @@ theorem withValue_sound (c : Cfg) (hc : c.pinned = false) :
         ∧ optionsOK (effOpts o) (derefKind t) j = true
   | .ptr t, o, j, v, h => by
     unfold withValue at h
-    obtain ⟨v', hv', rfl⟩ := exceptMap_ok h
-    have := withValue_sound c hc t o j v' hv'
-    simpa [satTy, derefKind] using this
+    split at h
+    · simp at h
+    · obtain ⟨v', hv', rfl⟩ := exceptMap_ok h
+      have := withValue_sound c hc t o j v' hv'
+      simpa [satTy, derefKind] using this
   | .prim k, o, j, v, h => by
     unfold withValue at h
     simpa [satTy, derefKind] using primWithValue_sound hc h
@@ -569,14 +686,161 @@ theorem withValue_sound (c : Cfg) (hc : c.pinned = false) :
     | bool b => simp at h
     | str s => simp at h
     | arr l => simp at h
-  | .slice _, o, j, v, h => by simp [withValue] at h
-  | .map _, o, j, v, h => by simp [withValue] at h
+  | .slice t, o, j, v, h => by
+    unfold withValue at h
+    cases j with
+    | arr l =>
+      simp only at h
+      exact ⟨by simpa [satTy] using slice_sound (fun j v hv => elemValue_sound c hc t j v hv) h,
+        by simp [derefKind, rangeOK_none], by simp [derefKind, optionsOK_none]⟩
+    | obj m => simp at h
+    | num lit => simp at h
+    | null => simp at h
+    | bool b => simp at h
+    | str s => simp at h
+  | .map t, o, j, v, h => by
+    unfold withValue at h
+    cases j with
+    | obj m =>
+      simp only at h
+      obtain ⟨vs, hvs, rfl⟩ := exceptMap_ok h
+      exact ⟨by simpa [satTy] using
+          mapEntries_sound (fun j v hv => mapElemValue_sound c hc t j v hv) (canonObj m) vs hvs,
+        by simp [derefKind, rangeOK_none], by simp [derefKind, optionsOK_none]⟩
+    | arr l => simp at h
+    | num lit => simp at h
+    | null => simp at h
+    | bool b => simp at h
+    | str s => simp at h
+theorem elemValue_sound (c : Cfg) (hc : c.pinned = false) :
+    ∀ (t : Ty) (j : J) (v : Val), elemValue c t j = .ok v → satTy c t j v = true
+  | .ptr t, j, v, h => by
+    unfold elemValue at h
+    split at h
+    · simp at h
+    · obtain ⟨v', hv', rfl⟩ := exceptMap_ok h
+      simpa [satTy] using elemValue_sound c hc t j v' hv'
+  | .prim k, j, v, h => by
+    unfold elemValue at h
+    cases j with
+    | num s => simpa [satTy, primDenotes] using convertFromString_denotes h
+    | str s => simpa [satTy, primDenotes] using convertFromString_denotes h
+    | bool b =>
+      simp only at h
+      split at h
+      · rename_i hk; simp at h; subst h; subst hk; simp [satTy, primDenotes, scalarEq]
+      · simp at h
+    | null => simp at h
+    | arr l => simp at h
+    | obj m => simp at h
+  | .struct fs, j, v, h => by
+    unfold elemValue at h
+    cases j with
+    | obj m =>
+      simp only at h
+      obtain ⟨vs, hvs, rfl⟩ := exceptMap_ok h
+      simpa [satTy] using unmFields_sound c hc fs m vs hvs
+    | num lit => simp at h
+    | null => simp at h
+    | bool b => simp at h
+    | str s => simp at h
+    | arr l => simp at h
+  | .slice t, j, v, h => by
+    unfold elemValue at h
+    cases j with
+    | arr l =>
+      simp only at h
+      simpa [satTy] using slice_sound (fun j v hv => elemValue_sound c hc t j v hv) h
+    | obj m => simp at h
+    | num lit => simp at h
+    | null => simp at h
+    | bool b => simp at h
+    | str s => simp at h
+  | .map t, j, v, h => by
+    unfold elemValue at h
+    cases j with
+    | obj m =>
+      simp only at h
+      obtain ⟨vs, hvs, rfl⟩ := exceptMap_ok h
+      simpa [satTy] using
+        mapEntries_sound (fun j v hv => mapElemValue_sound c hc t j v hv) (canonObj m) vs hvs
+    | arr l => simp at h
+    | num lit => simp at h
+    | null => simp at h
+    | bool b => simp at h
+    | str s => simp at h
+theorem mapElemValue_sound (c : Cfg) (hc : c.pinned = false) :
+    ∀ (t : Ty) (j : J) (v : Val), mapElemValue c t j = .ok v → satTy c t j v = true
+  | .ptr t, j, v, h => by
+    unfold mapElemValue at h
+    split at h
+    · simp at h
+    · simp only [hc, Bool.false_and, Bool.false_eq_true, if_false] at h
+      obtain ⟨v', hv', rfl⟩ := exceptMap_ok h
+      simpa [satTy] using mapElemValue_sound c hc t j v' hv'
+  | .prim k, j, v, h => by
+    unfold mapElemValue at h
+    cases j with
+    | num s => simpa [satTy, primDenotes] using convertFromString_denotes h
+    | str s =>
+      simp only at h
+      split at h
+      · rename_i hk; simp at h; subst h; subst hk
+        have hcv : convertFromString .string s = .ok (.str s) := rfl
+        simpa [satTy, primDenotes] using convertFromString_denotes hcv
+      · simp at h
+    | bool b =>
+      simp only at h
+      split at h
+      · rename_i hk; simp at h; subst h; subst hk; simp [satTy, primDenotes, scalarEq]
+      · simp at h
+    | null => simp at h
+    | arr l => simp at h
+    | obj m => simp at h
+  | .struct fs, j, v, h => by
+    unfold mapElemValue at h
+    cases j with
+    | obj m =>
+      simp only at h
+      obtain ⟨vs, hvs, rfl⟩ := exceptMap_ok h
+      simpa [satTy] using unmFields_sound c hc fs m vs hvs
+    | num lit => simp at h
+    | null => simp at h
+    | bool b => simp at h
+    | str s => simp at h
+    | arr l => simp at h
+  | .slice t, j, v, h => by
+    unfold mapElemValue at h
+    cases j with
+    | arr l =>
+      simp only at h
+      simpa [satTy] using slice_sound (fun j v hv => elemValue_sound c hc t j v hv) h
+    | obj m => simp at h
+    | num lit => simp at h
+    | null => simp only at h; split at h <;> simp at h
+    | bool b => simp at h
+    | str s => simp at h
+  | .map t, j, v, h => by
+    unfold mapElemValue at h
+    cases j with
+    | obj m =>
+      simp only at h
+      obtain ⟨vs, hvs, rfl⟩ := exceptMap_ok h
+      simpa [satTy] using
+        mapEntries_sound (fun j v hv => mapElemValue_sound c hc t j v hv) (canonObj m) vs hvs
+    | arr l => simp at h
+    | num lit => simp at h
+    | null => simp at h
+    | bool b => simp at h
+    | str s => simp at h
 theorem absentRequired_sound (c : Cfg) (hc : c.pinned = false) :
     ∀ (t : Ty) (v : Val), absentRequired c t = .ok v → satAbsent c t v = true
   | .ptr t, v, h => by
     unfold absentRequired at h
-    obtain ⟨v', hv', rfl⟩ := exceptMap_ok h
-    simpa [satAbsent] using absentRequired_sound c hc t v' hv'
+    split at h
+    · simp at h
+    · obtain ⟨v', hv', rfl⟩ := exceptMap_ok h
+      simpa [satAbsent] using absentRequired_sound c hc t v' hv'
   | .prim _, v, h => by simp [absentRequired] at h
   | .struct fs, v, h => by
     unfold absentRequired at h
@@ -590,7 +854,7 @@ theorem absentRequired_sound (c : Cfg) (hc : c.pinned = false) :
         obtain ⟨vs, hvs, rfl⟩ := exceptMap_ok h
         simpa [satAbsent] using unmFields_sound c hc fs [] vs hvs
   | .slice _, v, h => by simp [absentRequired] at h
-  | .map _, v, h => by simp [absentRequired] at h
+  | .map _, v, h => by simp [absentRequired] at h; subst h; simp [satAbsent]
 theorem unmFields_sound (c : Cfg) (hc : c.pinned = false) :
     ∀ (fs : Fields) (m : Obj) (vs : VFields), unmFields c fs m = .ok vs → satFields c fs m vs = true
   | .nil, m, vs, h => by simp [unmFields] at h; subst h; simp [satFields]
